@@ -24,7 +24,6 @@ import (
 	"unicode/utf8"
 
 	"github.com/foxcpp/maddy/framework/dns"
-	"golang.org/x/net/idna"
 	"golang.org/x/text/secure/precis"
 	"golang.org/x/text/unicode/norm"
 )
@@ -77,7 +76,7 @@ func CleanDomain(addr string) (string, error) {
 		return addr, err
 	}
 
-	uDomain, err := idna.ToUnicode(domain)
+	uDomain, err := dns.ToUnicode(domain)
 	if err != nil {
 		return addr, err
 	}
